@@ -1068,6 +1068,25 @@ impl<'a> Gen<'a> {
                 if n == 2 {
                     names.push(b(&format!("{}b", nm)));
                 }
+                if self.f.hostile && self.r.chance(1, 5) {
+                    // values that are not calls but have an effect (a field of an object whose __index logs), around a call
+                    let h = self.fresh();
+                    out.push(Stmt::Local { names: vec![b(&h)], values: vec![call("extt", vec![])], is_const: false });
+                    self.undeclare(&h);
+                    let k = 2 + self.r.below(3);
+                    let mut names = vec![];
+                    let mut vals = vec![];
+                    for i in 0..k {
+                        names.push(b(&format!("{}_{}", nm, i)));
+                        vals.push(match self.r.below(3) {
+                            0 => call("ext", vec![Expr::str("mid")]),
+                            1 => Expr::field(name(&h), &format!("f{}", i)),
+                            _ => Expr::index(name(&h), num(i as f64)),
+                        });
+                    }
+                    out.push(Stmt::Local { names, values: vals, is_const: false });
+                    return;
+                }
                 let vals: Vec<Expr> = match self.r.below(6) {
                     0 => vec![self.num_lit()],
                     1 => vec![call("ext", vec![Expr::str("u")])],
@@ -1470,6 +1489,14 @@ impl<'a> Gen<'a> {
             }
             _ => {
                 self.idiom("shadowed_math");
+                if self.f.luau && self.r.bool() {
+                    // a floor division where `math` is the global, then one where `math` is a local / a parameter
+                    out.push(Stmt::Call(call("sink", vec![Expr::bin(BinOp::IDiv, num(7.0), num(2.0))])));
+                    let body = Block { stmts: vec![Stmt::Return(vec![Expr::bin(BinOp::IDiv, name("n"), num(2.0))])] };
+                    let f = Expr::Function(Rc::new(FuncBody { params: vec![b("math"), b("n")], is_vararg: false, vararg_ty: None, generics: None, ret_ty: None, body, attributes: vec![] }));
+                    out.push(Stmt::Call(call("sink", vec![Expr::call(Expr::paren(f), vec![Expr::str("not the library"), num(9.0)])])));
+                    return;
+                }
                 // local math = { sqrt = function(x) return x + 1 end }
                 if depth < 4 {
                     let body = Block { stmts: vec![Stmt::Return(vec![Expr::bin(BinOp::Add, name("x"), num(1.0))])] };
@@ -1545,6 +1572,41 @@ impl<'a> Gen<'a> {
                         self.undeclare(&nm);
                         out.push(Stmt::Call(call("sink", vec![name(&nm)])));
                     }
+                }
+            }
+            3 if self.r.chance(1, 4) => {
+                self.idiom("profiling_name_on_another_table");
+                // `profilebegin` / `profileend` / `assert` reached through another (global) table are not the targeted functions
+                let tname = *self.r.pick(&["Profiler", "Stats"]);
+                let fname = *self.r.pick(&["profilebegin", "profileend", "assert"]);
+                let body = Block { stmts: vec![Stmt::Call(call("sink", vec![Expr::str("own"), Expr::Vararg])), Stmt::Return(vec![Expr::str("own-result")])] };
+                let f = Expr::Function(Rc::new(FuncBody { params: vec![], is_vararg: true, vararg_ty: None, generics: None, ret_ty: None, body, attributes: vec![] }));
+                out.push(Stmt::Assign { targets: vec![name(tname)], values: vec![Expr::Table(vec![TableItem::Named(fname.into(), f)])] });
+                let c = Expr::call(Expr::field(name(tname), fname), vec![call("ext", vec![Expr::str("arg")])]);
+                if self.r.bool() {
+                    out.push(Stmt::Call(c));
+                } else {
+                    out.push(Stmt::Call(call("sink", vec![c, num(0.0)])));
+                }
+            }
+            3 if self.r.chance(1, 3) => {
+                self.idiom("removed_call_with_table_argument");
+                // table-call syntax: computed keys and values with effects have to be kept, in order
+                let fexpr = if self.r.bool() { name("assert") } else { Expr::field(name("debug"), if self.r.bool() { "profilebegin" } else { "profileend" }) };
+                let mut items = vec![];
+                for i in 0..(1 + self.r.below(3)) {
+                    items.push(match self.r.below(4) {
+                        0 => TableItem::Keyed(call("ext", vec![Expr::str("key")]), Expr::True),
+                        1 => TableItem::Keyed(call("ext", vec![Expr::str("key")]), call("ext", vec![Expr::str("value")])),
+                        2 => TableItem::Named(format!("f{}", i), call("ext", vec![Expr::str("named")])),
+                        _ => TableItem::Pos(call("ext", vec![Expr::str("pos")])),
+                    });
+                }
+                let c = Expr::Call { func: Box::new(fexpr), args: vec![Expr::Table(items)], sugar: CallSugar::Table };
+                if self.r.bool() {
+                    out.push(Stmt::Call(c));
+                } else {
+                    out.push(Stmt::Call(call("sink", vec![c, num(0.0)])));
                 }
             }
             3 if self.r.bool() => {
